@@ -908,7 +908,7 @@ func TestC06(t *testing.T) {
 			ew.hist = []string{op}
 			r.Op(op, "ok")
 			return "ok"
-		case "addr", "const", "row", "call", "whoami", "emit", "spoof", "evmrestart", "evmupgrade":
+		case "addr", "const", "row", "call", "whoami", "emit", "emitmix", "spoof", "evmrestart", "evmupgrade":
 			if ew == nil {
 				t.Fatalf("op before evmreset: %s", op)
 			}
@@ -1021,6 +1021,11 @@ func c06EvmTableBody(run func(string) string, first bool) {
 	}
 	run("emit " + eoa + " " + hx(c06EmitterAddr.Bytes()))
 	run("emit packet " + hx(c06EmitterAddr.Bytes()))
+	for _, via := range []string{eoa, "packet"} {
+		for _, order := range []string{"g", "gf", "fg", "fgf", "gs", "ff", "ffg", "gsf"} {
+			run("emitmix " + via + " " + order + " " + hx(c06EmitterAddr.Bytes()))
+		}
+	}
 	run("spoof agent-send")
 	for _, m := range c06Methods() {
 		out := run("row " + m.contract + " " + m.name)
